@@ -78,7 +78,7 @@ def attach_hooks(run):
             r = K11 @ v - lam[j] * (M11 @ v)
             # normwise backward error of the pair (also meaningful for zero-frequency modes, where K v itself vanishes)
             worst = max(worst, np.linalg.norm(r, np.inf) / max((kn + abs(lam[j]) * mn) * np.linalg.norm(v, np.inf), 1e-300))
-        run.compare("modal", "clause=eigen-residual", worst, 1e-9, "a returned pair does not satisfy K v = lambda M v on the free unknowns "
+        run.compare("modal", "clause=eigen-residual", worst, 1e-7, "a returned pair does not satisfy K v = lambda M v on the free unknowns "
                     "(K, M re-assembled from the items)", unit="modal:residual", config=("modal", len(lam), len(dof1)),
                     sample={"free_unknowns": int(len(dof1)), "modes": int(len(lam)), "eigenvalues": lam[:6].tolist(), "worst_relative_residual": worst})
         # the pairs are genuine and distinct: non-zero vectors, M-orthogonal for separated eigenvalues, no vector returned twice
@@ -131,11 +131,22 @@ def shifted_solver(shift):
     return solver
 
 
-def build(rng, fam, density=None):
+UNIT_SYSTEMS = [lambda r: (float(10 ** r.uniform(3, 5.5)), float(10 ** r.uniform(-9, -8)), float(10 ** r.uniform(0, 2))),      # mm-t-s
+                lambda r: (float(10 ** r.uniform(6, 11.3)), float(10 ** r.uniform(2.7, 4)), float(10 ** r.uniform(-3, 0)))]    # SI
+
+
+def build(rng, fam, density=None, units=False):
     import felupe as fem
     mesh, L = problems.box_mesh(fam, rng, n=None, lengths=rng.uniform(0.8, 3.0, 3 if fam in ("hexahedron", "hexahedron20", "tetra", "tetra10") else 2))
     d = mesh.dim
     E, nu = float(rng.uniform(1, 100)), float(rng.uniform(0.1, 0.4))
+    if units:
+        # another, consistent unit system: mm-t-s (steel: E = 2.1e5, rho = 7.85e-9, part sizes 1..100) or SI (E = 1e6..2e11,
+        # rho = 5e2..1e4, part sizes 1e-3..1): the eigenpairs are those of the matrices the items assemble, whatever their magnitudes
+        E, rho_u, sL = UNIT_SYSTEMS[int(rng.integers(0, len(UNIT_SYSTEMS)))](rng)
+        density = rho_u if density is None else density
+        mesh = mesh.copy(points=mesh.points * sL)
+        L = L * sL
     if d == 3:
         field = problems.field_for(fam, mesh, "3d")
         umat = fem.LinearElastic(E=E, nu=nu)
@@ -154,7 +165,9 @@ def case_constrained(fam, rep):
         rng = rng_for(run.seed, "C18", "constrained", fam, rep)
         attach_hooks(run)
         try:
-            solid, field, mesh, L, par = build(rng, fam)
+            solid, field, mesh, L, par = build(rng, fam, units=bool((rep // 3) % 2) or rep % 2 == 1)
+            if (rep // 3) % 2 or rep % 2 == 1:
+                run.units["modal:other-unit-system"] += 1
             bkind = rep % 3
             if bkind == 0:
                 b = {"left": fem.Boundary(field[0], fx=0.0)}
@@ -171,6 +184,22 @@ def case_constrained(fam, rep):
             for n in range(k):
                 job.extract(n, inplace=False)
             run.configs.add(str(("constrained", fam, bkind, k)))
+            # the same body in a sweep of unit systems (stiffness and density magnitudes from 1e-9 to 1e6)
+            um = solid.umat
+            sweep = ((5, -9), (4, -8), (3, -9), (0, -6), (2, -7), (0, 0))[rep % 2::2] if 0.5 < float(np.max(L)) < 5 else ()
+            for e10, r10 in sweep:
+                um2 = type(um)(E=float(rng.uniform(1, 9)) * 10.0 ** e10, nu=um.nu)
+                s2 = fem.SolidBody(um2, field, density=float(rng.uniform(1, 9)) * 10.0 ** r10)
+                try:
+                    fem.FreeVibration([s2], b).evaluate(k=k)
+                    run.units["modal:unit-sweep"] += 1
+                except Exception as exc:
+                    if type(exc).__name__ == "ArpackError" or "ARPACK" in str(exc):
+                        # the eigensolver refuses the pencil: on the unchanged tree this does not happen for these well-posed
+                        # problems; it is reported, as the pairs that should have been returned are missing
+                        run.fail("modal", "clause=eigenpairs-returned unit-system", "FreeVibration.evaluate fails on a well-posed problem in another unit system: %s" % str(exc)[:80])
+                    else:
+                        raise
         finally:
             attach.detach_all()
     return fn
@@ -312,7 +341,7 @@ def cases(tier, seed):
 SPEC = {
     "required_units": ["modal:residual", "modal:prescribed", "modal:scatter", "modal:frequency", "modal:rigid-modes:2d", "modal:rigid-modes:3d",
                        "modal:invariance", "modal:mixed-container", "modal:prestretched", "modal:orthogonal", "modal:items>=2", "modal:parallel",
-                       "modal:item:SolidBodyNearlyIncompressible"],
+                       "modal:item:SolidBodyNearlyIncompressible", "modal:other-unit-system", "modal:unit-sweep"],
     "rule": ("linear-elastic bodies on 8 element families (3D and plane strain) with random box dimensions, elastic constants, densities, three "
              "kinds of boundary dictionaries, 1..12 requested modes; unconstrained bodies through a solver= with a small negative shift; "
              "mixed u/p/J container; every evaluate()/extract() is judged by the post-hooks with K and M re-assembled from item copies; a "
